@@ -64,7 +64,8 @@ for arm in arms_a:
         b = re.sub(r"^  \| _ => ", lambda m: arm + "\n" + m.group(0), b, count=1, flags=re.M); print("Driver.lean:", arm.strip()[:100])
 wr(os.path.join(dst, "lean/Driver.lean"), b)
 # 4. main.rs
-a, b = rd(os.path.join(src, "harness/src/main.rs")), rd(os.path.join(dst, "harness/src/registry.rs.txt"))
+srcreg = os.path.join(src, "harness/src/main.rs") if os.path.exists(os.path.join(src, "harness/src/main.rs")) else os.path.join(src, "harness/src/registry.rs.txt")
+a, b = rd(srcreg), rd(os.path.join(dst, "harness/src/registry.rs.txt"))
 for mod in re.findall(r"^mod \w+;$", a, re.M):
     if mod not in b:
         last = list(re.finditer(r"^mod \w+;$", b, re.M))[-1]
